@@ -119,6 +119,27 @@ theorem verifyPart1_ok {terms : List Sym} {start : Sym} {G : Prods Sym}
     · intro h'; exact hn (Or.inl h')
     · intro h'; exact hn (Or.inr h')
 
+/-- what the composed theorems need from a successful construction; unlike `Built` it does not
+mention how the start symbol was chosen, so it also holds for `parse(…, start_symbol_name=X)` -/
+structure Core (P : Parser) : Prop where
+  hendT : endSym ∈ P.terminals
+  hV : Part1 P.terminals P.start P.prods
+  hN : nullables P.prods = .ok P.nullables
+  hT : mkTable P.terminals P.nullables P.first P.follow P.prods = .ok P.table
+  hR : recCheck P.prods P.terminals P.nullables (sortedKeys P.prods) = .ok ()
+
+theorem Built.core {inp : CtorIn} {P : Parser} (hB : Built inp P) : Core P :=
+  { hendT := by rw [hB.hterms]; exact mem_sadd.2 (Or.inr rfl), hV := verifyPart1_ok hB.hV, hN := hB.hN,
+    hT := hB.hT, hR := hB.hR }
+
+/-- the same parser started from another key of the factorised dictionary -/
+theorem Core.withStart {P : Parser} (hC : Core P) {s : Sym} (hs : s ∈ pkeys P.prods) :
+    Core { P with start := s } :=
+  { hendT := hC.hendT,
+    hV := { startKey := hs, endNoKey := hC.hV.endNoKey, initNoKey := hC.hV.initNoKey, disjoint := hC.hV.disjoint,
+            known := hC.hV.known, endNoSym := hC.hV.endNoSym, initNoSym := hC.hV.initNoSym },
+    hN := hC.hN, hT := hC.hT, hR := hC.hR }
+
 /-! ### the grammars of the statement -/
 
 /-- grammar read off a `prods_map`, with the technical rule `$START$ → start $END$`; `$START$` may
@@ -414,14 +435,14 @@ theorem take_eq_snoc_end {body a : List (Tok Sym)} {x y : Tok Sym} {n : Nat}
     simpa using h2.symm
 
 /-- C01, composed for the constructed parser, given what factorisation guarantees (`FactRel`) -/
-theorem parse_sound_of_rel {inp : CtorIn} (hB : Built inp P) (hR : FactRel P)
+theorem parse_sound_of_rel (hB : Core P) (hR : FactRel P)
     (hsu : P.start ∈ pkeys P.userProds) (raw : List (List Char × List Char))
     (hEnd : ∀ tok ∈ (P.tokens raw).dropLast, tok.name ≠ endSym)
     (fuel : Nat) (t : Tree Sym) (h : P.parse raw fuel = .ok t) :
     t.name = P.start ∧ Derives P.terminals P.userProds t ∧ NoHelper P.suffix t ∧
       t.yield = (P.tokens raw).dropLast := by
-  have h1 := verifyPart1_ok hB.hV
-  have hendT : endSym ∈ P.terminals := by rw [hB.hterms]; exact mem_sadd.2 (Or.inr rfl)
+  have h1 := hB.hV
+  have hendT : endSym ∈ P.terminals := hB.hendT
   have hFO := factOK_of_rel h1 hR hsu
   have hTW := tableWF_of_built h1 hB.hT
   let U := extGram P.userProds P.start
